@@ -254,7 +254,7 @@ MUTATIONS += [
     dict(id="q-kron-sample-negative-axes", file=TINNER, old="            y0 = y0.unsqueeze(dim=2)  # (F, K, 1, num_samples, D)", new="            y0 = y0.unsqueeze(dim=-3)  # (F, K, 1, num_samples, D)", expect={}, quiet=True),
     # ---- layout typing (shape-preserving, value-changing edits)
     dict(id="r4l-outersum-operand-order", file=TNODES, old="        x1 = x1.unsqueeze(self.dim + 2)  # (F, d1, d2, ..., dk1, 1, ..., dn)\n        x2 = x2.unsqueeze(self.dim + 1)  # (F, d1, d2, ..., 1, dk1, ...., dn)", new="        x1 = x1.unsqueeze(self.dim + 1)  # (F, d1, d2, ..., dk1, 1, ..., dn)\n        x2 = x2.unsqueeze(self.dim + 2)  # (F, d1, d2, ..., 1, dk1, ...., dn)", expect={"C14": ["R4l:cirkit.backend.torch.parameters.nodes.TorchOuterSumParameter:layout"]}),
-    dict(id="r4l-mixing-columns", file=TNODES, old="        return diag_weights.permute(0, 2, 1, 3).flatten(start_dim=2)", new="        return diag_weights.permute(0, 2, 3, 1).flatten(start_dim=2)", expect={"C14": ["R4l:cirkit.backend.torch.parameters.nodes.TorchMixingWeightParameter:layout"]}),
+    dict(id="r4l-mixing-columns", file=TNODES, old="        return diag_weights.permute(0, 2, 1, 3).flatten(start_dim=2)", new="        return diag_weights.permute(0, 2, 3, 1).flatten(start_dim=2)", expect={"C12": ["R4l:"], "C14": ["R4l:cirkit.backend.torch.parameters.nodes.TorchMixingWeightParameter:layout"]}),
     dict(id="r4l-gauss-stddev-order", file=TNODES, old="        inv_var1 = torch.reciprocal(var1).unsqueeze(dim=2)  # (F, K1, 1, C)\n        inv_var2 = torch.reciprocal(var2).unsqueeze(dim=1)  # (F, 1, K2, C)", new="        inv_var1 = torch.reciprocal(var1).unsqueeze(dim=1)  # (F, K1, 1, C)\n        inv_var2 = torch.reciprocal(var2).unsqueeze(dim=2)  # (F, 1, K2, C)", expect={"C14": ["R4l:cirkit.backend.torch.parameters.nodes.TorchGaussianProductStddev:layout"]}),
     dict(id="r4l-kron-forward-order", file=TINNER, old="            y0 = y0.unsqueeze(dim=-1)  # (F, B, K, 1).\n            y1 = x[:, i].unsqueeze(dim=-2)  # (F, B, 1, Ki).", new="            y0 = y0.unsqueeze(dim=-2)  # (F, B, K, 1).\n            y1 = x[:, i].unsqueeze(dim=-1)  # (F, B, 1, Ki).", expect={"C01": ["R4l:cirkit.backend.torch.layers.inner.TorchKroneckerLayer:layout"]}, allow_others=True),
     dict(id="r4l-sum-flatten-order", file=TINNER, old="        x = x.permute(0, 2, 1, 3).flatten(start_dim=2)\n        weight = self.weight()\n        return self.semiring.einsum(\n            \"fbi,foi->fbo\"", new="        x = x.permute(0, 2, 3, 1).flatten(start_dim=2)\n        weight = self.weight()\n        return self.semiring.einsum(\n            \"fbi,foi->fbo\"", expect={"C01": ["R4l:cirkit.backend.torch.layers.inner.TorchSumLayer:layout"]}, allow_others=True),
@@ -280,7 +280,7 @@ MUTATIONS += [
     dict(id="r13c-hmm-zip", patch="seeded/C20a/patch.diff", expect={"C20": ["R13"], "C12": ["R13"]}),
     dict(id="r13d-filtered-enumerate", patch="seeded/C11a/patch.diff", expect={"C11": ["R13d:cirkit.backend.torch.queries.IntegrateQuery.scopes_to_mask"]}),
     dict(id="r8m-bound-check", patch="seeded/C11b/patch.diff", expect={"C11": ["R8m:cirkit.backend.torch.queries.IntegrateQuery.scopes_to_mask"]}),
-    dict(id="r7n-per-node", patch="seeded/C16a/patch.diff", expect={"C16": ["R7n:cirkit.templates.region_graph.graph.RegionGraph.is_structured_decomposable"]}),
+    dict(id="r7n-per-node", patch="seeded/C16a/patch.diff", expect={"C08": ["R7n:"], "C16": ["R7n:cirkit.templates.region_graph.graph.RegionGraph.is_structured_decomposable"]}),
     dict(id="r7n-scope-identity", patch="seeded/C16b/patch.diff", expect={"C16": ["R7n:cirkit.templates.region_graph.graph.RegionGraph.dump"]}),
     dict(id="r6e-cached-factory", patch="seeded/C18a/patch.diff", expect={"C18": ["R6e:cirkit.symbolic.registry.OperatorRegistry.from_default_rules"]}),
     dict(id="r10h-stale-memo", patch="seeded/C20b/patch.diff", expect={"C20": ["R10h:cirkit.templates.logic.graph.LogicalCircuit"]}),
@@ -362,4 +362,34 @@ MUTATIONS += [
     # ---- R4q sample-call
     dict(id="r4q-sample-call-permute", file="cirkit/backend/torch/queries.py", old="        samples = samples.permute(2, 0, 1, 3)", new="        samples = samples.permute(3, 0, 1, 2)", expect={"C15": ["R4q:cirkit.backend.torch.queries.SamplingQuery.__call__:sample-call"]}),
     dict(id="q-r4q-sample-call-index-then-transposeless", quiet=True, file="cirkit/backend/torch/queries.py", old="        samples = samples.permute(2, 0, 1, 3)\n        # TODO: fix for the case of multi-output circuits, i.e., O != 1 or K != 1\n        samples = samples[:, 0, 0]  # (num_samples, D)", new="        samples = samples[0, 0]  # (num_samples, D)", expect={}),
+    # ---- quiet twins of the wave-4 rules (behaviour-preserving rewrites: every check stays silent)
+    dict(id="q-r2d-conjugate-hoisted", quiet=True, file=OPS, old="    weight = Parameter.from_unary(ConjugateParameter(sl.weight.shape), sl.weight.ref())\n    sl = SumLayer(", new="    w_ref = sl.weight.ref()\n    conj = ConjugateParameter(w_ref.shape)\n    weight = Parameter.from_unary(conj, w_ref)\n    sl = SumLayer(", expect={}),
+    dict(id="q-r7s-scopes-hoisted", quiet=True, file="cirkit/symbolic/circuit.py", old="            self._scopes[sl] = Scope.union(*tuple(self._scopes[sli] for sli in sl_ins))", new="            in_scopes = [self._scopes[sli] for sli in sl_ins]\n            self._scopes[sl] = Scope.union(*in_scopes)", expect={}),
+    dict(id="q-r8-nothing-selected-method-any", quiet=True, file="cirkit/backend/torch/queries.py", old="        if not torch.any(integration_mask).item():\n            return output", new="        if not integration_mask.any():\n            return output", expect={}),
+    dict(id="q-r8s-where-bool", quiet=True, file="cirkit/backend/torch/queries.py", old="        return torch.where(integration_mask, integration_output, output)", new="        selected = integration_mask.bool()\n        return torch.where(selected, integration_output, output)", expect={}),
+    dict(id="q-r14b-iterate-copy", quiet=True, edits=[("cirkit/templates/logic/graph.py", "            for input_to_d in self.node_inputs(d):", "            for input_to_d in list(self.node_inputs(d)):"), ("cirkit/templates/logic/graph.py", "                        in_nodes[d].insert(0, ad_hoc)", "                        in_nodes[d].append(ad_hoc)")], expect={}),
+    dict(id="q-r14d-width-hoisted", quiet=True, file="cirkit/templates/region_graph/graph.py", old="                sum_sl = sum_factory(sum_input.num_output_units, num_units)", new="                width = sum_input.num_output_units\n                sum_sl = sum_factory(width, num_units)", expect={}),
+    dict(id="q-r10i-clone-then-inplace", quiet=True, file="cirkit/backend/torch/layers/inner.py", old="        x = torch.sum(x, dim=1)  # (F, C, K, num_samples, D)\n        return x, None", new="        y = x[:, 0].clone()\n        for i in range(1, x.shape[1]):\n            y += x[:, i]\n        return y, None", expect={}),
+    dict(id="q-r4s-randn-full-shape", quiet=True, file="cirkit/backend/torch/layers/input.py", old="        dist = distributions.Normal(loc=self.mean(), scale=self.stddev())\n        # samples: (N, F, K)\n        samples = dist.sample((num_samples,))\n        samples = samples.permute(1, 2, 0)  # (F, K, N)\n        return samples", new="        mean = self.mean().unsqueeze(dim=-1)  # (F, K, 1)\n        stddev = self.stddev().unsqueeze(dim=-1)  # (F, K, 1)\n        eps = torch.randn(mean.shape[0], mean.shape[1], num_samples)\n        return mean + stddev * eps  # (F, K, N)", expect={}),
+    dict(id="q-r5d-zero-branch-degree-form", quiet=True, file=TNODES, old="        if x.shape[-1] <= self.order:\n            return torch.zeros_like(x[..., :1])  # shape (F, K, 1).", new="        degree = x.shape[-1] - 1\n        if degree < self.order:\n            return torch.zeros_like(x[..., :1])  # shape (F, K, 1).", expect={}),
+    dict(id="q-polyval-leading-coeff-expanded", quiet=True, file="cirkit/backend/torch/layers/input.py", old="        y = x.new_zeros(*x.shape[:-1], coeff.shape[-2])  # shape (F, B, Ko).\n\n        # TODO: iterating over dim=2 is inefficient\n        for a_n in reversed(\n            coeff.unbind(dim=2)\n        ):  # Reverse iterator of the degree axis, shape (F, Ko).", new="        a_deg, *a_ns = reversed(coeff.unbind(dim=2))\n        y = a_deg.unsqueeze(dim=1).expand(-1, x.shape[1], -1)\n        for a_n in a_ns:", expect={}),
+    dict(id="q-r14a-groupby-sorted-same-key", quiet=True, file="cirkit/templates/region_graph/graph.py", old="""        is_structured_decomposable = True
+        decompositions: dict[Scope, frozenset[Scope]] = {}
+        for partition in self.partition_nodes:
+            # A decomposition is the set of the sub-scopes, regardless of how they are ordered
+            decomp = frozenset(region.scope for region in self.node_inputs(partition))
+            if partition.scope not in decompositions:
+                decompositions[partition.scope] = decomp
+            is_structured_decomposable &= decomp == decompositions[partition.scope]
+        return is_structured_decomposable
+""", new="""        partitions = sorted(self.partition_nodes, key=lambda p: tuple(p.scope))
+        for _, scope_partitions in itertools.groupby(partitions, key=lambda ptn: tuple(ptn.scope)):
+            decompositions = {
+                frozenset(region.scope for region in self.node_inputs(partition))
+                for partition in scope_partitions
+            }
+            if len(decompositions) > 1:
+                return False
+        return True
+""", expect={}),
 ]
